@@ -12,7 +12,8 @@
 (*      Meta   its entry in snippet_metadata_*.json                          *)
 (*      Client what `inspect` says about the client method the entry names  *)
 (*      Doc    the code block of that method's docstring                     *)
-(*      Run, Call*, Return | Raise   execution against the loopback server  *)
+(*      (Run, Call*, Return | Raise)+  executions against the loopback      *)
+(*             server (every sample is run several times)                   *)
 (* Every action is  IsEvent(name) /\ <action of Samples> /\ <logged fields  *)
 (* compared with the primed variables>.  Because several recorded           *)
 (* departures are already known, a logged field that differs does not      *)
@@ -90,7 +91,7 @@ TFile == /\ IsEvent("File") /\ stage = "render"
                  \cup If(WellFormed(E.kinds) /\ Len(E.kinds) = Len(E.texts), "file:malformed")
                  \cup If(E.startTags = <<focus.tag>> /\ E.endTags = <<focus.tag>>, "file:tag-mismatch")
                  \cup If(E.unresolved = <<>>, "request:unresolved-import")
-                 \cup If(E.nonpublic = <<>>, "request:nonpublic-name"))
+                 \cup {"request:nonpublic-name:" \o E.nonpublic[i] : i \in 1..Len(E.nonpublic)})
          /\ IF E.compiles /\ WellFormed(E.kinds) /\ Len(E.kinds) = Len(E.texts)
             THEN /\ lines' = E.kinds /\ stage' = "parse"
                  /\ UNCHANGED <<api, specs, focus, segs, index, embed, phase, req, seen>>
@@ -151,6 +152,11 @@ TDoc == /\ IsEvent("Doc") /\ stage = "embed"
            ELSE Note(If(NonBlank(E.texts, 0) = embed', "doc:differs"))
 
 TRun == /\ IsEvent("Run") /\ RunSample /\ UNCHANGED dev
+\* every sample is executed several times (a call that only sometimes reaches the server is a race, not a delivery):
+\* a further Run starts from the state RunSample starts from
+TRunAgain == /\ IsEvent("Run") /\ stage = "done" /\ phase \in {"returned", "unserved", "raised-observed"}
+             /\ stage' = "run" /\ phase' = "built" /\ req' = BuildRequest(FKinds) /\ seen' = <<>>
+             /\ UNCHANGED <<api, specs, focus, lines, segs, index, embed, dev>>
 
 TCall == /\ IsEvent("Call") /\ stage = "run" /\ phase \in {"built", "called"}
          /\ seen' = Append(seen, [svc |-> E.service, rpc |-> RpcIdOf(E.rpc), pop |-> SetOf(E.populated)])
@@ -184,7 +190,7 @@ TNextTrace == /\ tid <= N /\ l = Len(Ev) + 1 /\ stage \in {"done", "aborted", "i
               /\ dev # {} => PrintT(<<"DEVIATION", ToJson([id |-> Traces[tid].id, dev |-> dev])>>)
               /\ tid' = tid + 1 /\ l' = 1 /\ dev' = {}
               /\ IF tid + 1 <= N THEN ResetFor(tid + 1) ELSE UNCHANGED vars
-TNext == TGen \/ TGenDone \/ TSkip \/ TSpec \/ TFile \/ TMeta \/ TClient \/ TDoc \/ TRun \/ TCall \/ TReturn \/ TRaise
+TNext == TGen \/ TGenDone \/ TSkip \/ TSpec \/ TFile \/ TMeta \/ TClient \/ TDoc \/ TRun \/ TRunAgain \/ TCall \/ TReturn \/ TRaise
          \/ TNextTrace
 TSpecification == TInit /\ [][TNext]_tvars
 Progress == TLCSet(2, <<tid, l>>)          \* CONSTRAINT: remembers how far the batch got (workers 1)
